@@ -120,11 +120,16 @@ fn eval_rt(t: &Transaction) -> Out {
         Ok(Ok(x)) => {
             let pf = if x == *t { None } else {
                 let coinbase_flip = t.input.iter().zip(x.input.iter()).any(|(a, b)| a.previous_output.vout == 0xffff_ffff && a.is_pegin != b.is_pegin);
-                let nonce_drop = t.output.iter().zip(x.output.iter()).any(|(a, b)| a.nonce != b.nonce);
+                // the recorded class F8b is exactly: a nonce on an output that is NOT partially blinded (from_txout files it as the receiver's blinding
+                // key), or an explicit (32-byte) nonce; the ECDH nonce of a partially blinded output must survive
+                let f8b = |o: &TxOut| !o.is_partially_blinded() || matches!(o.nonce, Nonce::Explicit(_));
+                let nonce_drop = t.output.iter().zip(x.output.iter()).any(|(a, b)| a.nonce != b.nonce && f8b(a));
+                let nonce_lost = t.output.iter().zip(x.output.iter()).any(|(a, b)| a.nonce != b.nonce && !f8b(a));
                 let mut y = x.clone();
                 for (a, b) in t.input.iter().zip(y.input.iter_mut()) { if a.previous_output.vout == 0xffff_ffff { b.is_pegin = a.is_pegin; b.witness.pegin_witness = a.witness.pegin_witness.clone(); } }
                 for (a, b) in t.output.iter().zip(y.output.iter_mut()) { b.nonce = a.nonce; }
                 if y != *t { Some("rt-differs|extract_tx(from_tx(tx)) differs from tx".to_string()) }
+                else if nonce_lost { Some("rt-ecdh-nonce-lost|the ECDH nonce of a partially blinded output does not survive from_tx/extract_tx".to_string()) }
                 else if coinbase_flip { Some("F8a-coinbase-pegin-flip|input with vout 0xffffffff comes back with is_pegin flipped".to_string()) }
                 else if nonce_drop { Some("F8b-explicit-output-nonce-dropped|the nonce of an output does not survive from_tx/extract_tx".to_string()) }
                 else { Some("rt-differs|extract_tx(from_tx(tx)) differs from tx".to_string()) }
